@@ -81,6 +81,8 @@ class EprCmdData:
     request: Optional[LinkLayerCreate]
     tot_pairs: int
     pairs_left: int
+    # Virtual qubit IDs for the pairs, as the array held them when the request was made
+    virtual_qubit_ids: Optional[List[Optional[int]]] = None
 
 
 def inc_program_counter(method):
@@ -1016,12 +1018,14 @@ class Executor:
             arg_array_address=arg_array_address,
         )
         app_id = self._get_app_id(subroutine_id=subroutine_id)
+        virtual_qubit_ids: Optional[List[Optional[int]]] = None
         if create_request.type == RequestType.K:
             assert q_array_address is not None
             q_array = self._app_arrays[app_id][q_array_address, :]
             assert isinstance(q_array, list)
             num_qubits = len(q_array)
             assert num_qubits == create_request.number, "Not enough qubit addresses"
+            virtual_qubit_ids = list(q_array)
         self.network_stack.put(request=create_request)
         self._epr_create_requests[remote_node_id, create_request.purpose_id].append(
             EprCmdData(
@@ -1031,6 +1035,7 @@ class Executor:
                 request=create_request,
                 tot_pairs=create_request.number,
                 pairs_left=create_request.number,
+                virtual_qubit_ids=virtual_qubit_ids,
             )
         )
         return None
@@ -1140,6 +1145,11 @@ class Executor:
             remote_node_id=remote_node_id,
             epr_socket_id=epr_socket_id,
         )
+        virtual_qubit_ids: Optional[List[Optional[int]]] = None
+        if q_array_address is not None:
+            q_array = self._app_arrays[app_id][q_array_address, :]
+            assert isinstance(q_array, list)
+            virtual_qubit_ids = list(q_array)
         self._epr_recv_requests[remote_node_id, purpose_id].append(
             EprCmdData(
                 subroutine_id=subroutine_id,
@@ -1148,6 +1158,7 @@ class Executor:
                 request=None,
                 tot_pairs=num_pairs,
                 pairs_left=num_pairs,
+                virtual_qubit_ids=virtual_qubit_ids,
             )
         )
         return None
@@ -1678,10 +1689,17 @@ class Executor:
     def _get_virtual_address_from_epr_data(
         self, epr_cmd_data: EprCmdData, pair_index: int, app_id: int
     ) -> int:
-        q_array_address = epr_cmd_data.q_array_address
-        array_entry = parse_address(f"@{q_array_address}[{pair_index}]")
-        assert isinstance(array_entry, ArrayEntry)
-        virtual_address = self._get_array_entry(app_id=app_id, array_entry=array_entry)
+        virtual_address: Optional[int]
+        if epr_cmd_data.virtual_qubit_ids is not None:
+            # The IDs belong to the request: the program may re-use the array meanwhile
+            virtual_address = epr_cmd_data.virtual_qubit_ids[pair_index]
+        else:
+            q_array_address = epr_cmd_data.q_array_address
+            array_entry = parse_address(f"@{q_array_address}[{pair_index}]")
+            assert isinstance(array_entry, ArrayEntry)
+            virtual_address = self._get_array_entry(
+                app_id=app_id, array_entry=array_entry
+            )
         if virtual_address is None:
             raise RuntimeError("virtual address is None")
         return virtual_address
